@@ -10,7 +10,7 @@ TRUSTED = ['Lean 4.33 kernel (core only)', 'axioms ⊆ {propext, Quot.sound}',
            'angular separations and region membership are supplied per row by the library (astropy WCS, regions): abstract in the model',
            'astropy FITS I/O']
 
-CENTRES = [(30., 45.), (0.05, 0.04)]      # the second field sits next to RA = 0, DEC = 0 so that cone centres with a coordinate exactly 0.0 occur
+CENTRES = [(30., 45.), (0.012, 0.01)]     # the second field straddles RA = 0 / 360 and DEC = 0: a quarter of the events have RA ≈ 359.99, and cone centres with a coordinate exactly 0.0 occur
 RA0, DEC0 = CENTRES[0]
 
 
@@ -40,6 +40,7 @@ def build_file(g, d, n=160):
     src = g.integers(0, 3, n)
     path = os.path.join(d, 'sel.fits')
     evfile.write_event_file(path, t, pi=pi, phi=g.uniform(-3, 3, n), ra=ra, dec=dec, src=src, mc_energy=mce, tag=numpy.arange(1, n + 1),
+                            mc_ra=ra + g.normal(0, 0.006, n) / numpy.cos(numpy.radians(DEC0)), mc_dec=dec + g.normal(0, 0.006, n),   # true positions differ from the measured ones (PSF)
                             tstart=1000., tstop=1000. + 1024., ra0=RA0, dec0=DEC0)
     # PHASE column as xpphase writes it (format E)
     phase = (g.integers(0, 2 ** 10, n) / 2 ** 10).astype(numpy.float32)
@@ -291,7 +292,11 @@ def ref_mask(rows, kw):
             m &= x >= kw['innerrad']
             care &= (numpy.abs(x - kw['innerrad']) > 1e-6) | (kw['innerrad'] == 0.)
     if kw.get('regfile'):
-        r = rows['minreg'] if kw.get('mc') else rows['inreg']
+        # the region of the synthetic file is a 55" circle: membership computed independently from the (measured or true) sky position;
+        # rows within 0.6" of the edge are "don't care" (the regions library works in pixel space)
+        x = haversine_arcmin(rows['mra'] if kw.get('mc') else rows['ra'], rows['mdec'] if kw.get('mc') else rows['dec'], RA0 + 0.004, DEC0 - 0.003)
+        r = x <= 55. / 60.
+        care &= numpy.abs(x - 55. / 60.) > 0.01
         m &= ~r if kw.get('reginvert') else r
     for sid in kw.get('mcsrcid', []):
         m &= rows['src'] == sid
@@ -419,5 +424,6 @@ def main(chk):
 
 
 def replay(body):
-    out(body['what'])
-    return 1
+    import sys
+    import common
+    return common.replay_rerun(sys.modules[__name__], body)
